@@ -554,3 +554,60 @@ func injectEmptyDirect(r *rng, m *Model) bool {
 	cands[r.intn(len(cands))].Direct = nil
 	return true
 }
+
+// genSeparatorCollision: names that are concatenations of other names with a
+// separator DSL identifiers may contain (_ - . /), arranged so that
+// tupleset+sep+relation (or type+sep+relation) of two different operands spell
+// the same string: ("p"+sep+"q", "r") vs ("p", "q"+sep+"r"). Anything keyed by
+// a joined string instead of the pair confuses them.
+func genSeparatorCollision(r *rng) *Model {
+	sep := []string{"_", "-", ".", "/"}[r.intn(4)]
+	terms := []string{"user", "employee", "device"}
+	m := &Model{Schema: "1.1"}
+	for _, t := range terms {
+		m.Types = append(m.Types, &Type{Name: t})
+	}
+	p, q, rr := "p", "q", "r"
+	ts1, ts2 := p+sep+q, p
+	rel1, rel2 := rr, q+sep+rr
+	par := &Type{Name: "par"}
+	pick := func() []Ref {
+		n := 1 + r.intn(2)
+		var out []Ref
+		for _, i := range r.perm(len(terms))[:n] {
+			out = append(out, Ref{Type: terms[i], Wild: r.chance(20)})
+		}
+		return out
+	}
+	par.Relations = append(par.Relations,
+		&Relation{Name: rel1, Expr: &Expr{Kind: KThis}, Direct: pick()},
+		&Relation{Name: rel2, Expr: &Expr{Kind: KThis}, Direct: pick()})
+	doc := &Type{Name: "doc"}
+	doc.Relations = append(doc.Relations,
+		&Relation{Name: ts1, Expr: &Expr{Kind: KThis}, Direct: []Ref{{Type: "par"}}},
+		&Relation{Name: ts2, Expr: &Expr{Kind: KThis}, Direct: []Ref{{Type: "par"}}})
+	a := &Expr{Kind: KTTU, Rel: rel1, Tupleset: ts1}
+	b := &Expr{Kind: KTTU, Rel: rel2, Tupleset: ts2}
+	ops := []string{KInter, KExcl, KUnion}
+	e := &Expr{Kind: ops[r.intn(len(ops))], Children: []*Expr{a, b}}
+	if r.chance(50) {
+		e.Children[0], e.Children[1] = e.Children[1], e.Children[0]
+	}
+	rel := &Relation{Name: "both", Expr: e}
+	if r.chance(40) {
+		rel.Expr = &Expr{Kind: KUnion, Children: []*Expr{{Kind: KThis}, e}}
+		rel.Direct = pick()
+	}
+	doc.Relations = append(doc.Relations, rel)
+	// the same idea at the type#relation level: type "par"+sep+"x" relation "y"
+	// versus type "par" relation "x"+sep+"y"
+	if r.chance(50) {
+		t2 := &Type{Name: "par" + sep + "x", Relations: []*Relation{{Name: "y", Expr: &Expr{Kind: KThis}, Direct: pick()}}}
+		par.Relations = append(par.Relations, &Relation{Name: "x" + sep + "y", Expr: &Expr{Kind: KThis}, Direct: pick()})
+		doc.Relations = append(doc.Relations, &Relation{Name: "mix", Expr: &Expr{Kind: []string{KInter, KUnion}[r.intn(2)], Children: []*Expr{{Kind: KThis}, {Kind: KComputed, Rel: "both"}}},
+			Direct: []Ref{{Type: t2.Name, Rel: "y"}, {Type: "par", Rel: "x" + sep + "y"}}})
+		m.Types = append(m.Types, t2)
+	}
+	m.Types = append(m.Types, par, doc)
+	return m
+}
